@@ -69,7 +69,7 @@ partial def parseKeySpec (s : List Char) : Option (KeySrc × List Char) :=
       let body := (t.drop 2).toString
       if body.isEmpty then some (.list [], rest)
       else ((body.splitOn ",").mapM parseKey).map fun ks => (.list ks, rest)
-    else if t.startsWith "P" then
+    else if t.startsWith "P" ∨ t.startsWith "R" then   -- `R`: the same path handed over by reference (same keys)
       match (t.drop 1).toString.splitOn ":" with
       | [cp, text] => do
         let cp ← cp.toNat?
